@@ -50,6 +50,8 @@ threads perform arbitrary access sequences consistent with the classification, i
                          after handing it on (regenerated hand-over words, one per path), hence any number of goroutines
                          running those functions on one object under every schedule are data-race free.
                          `C11_release_first_counterexample`: an aggregator that releases the sample before formatting it.
+* `C11_pkg_vars_guarded` — every package-level variable of the scanned packages is written after `init` only under a
+                         lock / once / its own synchronisation, or belongs to the reviewed start-up registries.
 
 The classification itself is checked against the real code by the correspondence driver (aliasing graph, write
 set of a real `Shoot`, race-detector sweep); see `Drv/C11.lean`.
@@ -467,6 +469,21 @@ theorem C11_release_first_counterexample :
   · have : p = 3 := by omega
     subst this
     simp at hrel
+
+/-! ### package-level state -/
+
+/-- **C11_pkg_vars_guarded**: every package-level variable of components/, core/ and lib/ in the current source
+(regenerated) is never written after `init`, or only inside a mutex / `sync.Once` section or through its own
+synchronisation (atomic, sync.Map, sync.Pool, channel) — except the reviewed start-up registries
+`Spec.C11.setupOnlyVars`. Package-level state is what the reflection walker of the driver cannot reach. -/
+theorem C11_pkg_vars_guarded : Pandora.Gen.Locks.pkgVars.all Pandora.Spec.C11.pkgVarOk = true := by decide
+
+/-- non-vacuity: the table contains the guarded random source of lib/str and the start-up registries -/
+example : (Pandora.Gen.Locks.pkgVars.filter fun v => !v.2.2.isEmpty).length ≥ 3 := by decide
+
+/-- a package-level cache written by an instance-facing function without protection is rejected -/
+example : Pandora.Spec.C11.pkgVarOk ("components/providers/scenario/http/postprocessor.exprCache", "map[string]*xpath.Expr",
+    [("getValuesFromDOM", ".none")]) = false := by decide
 
 /-! ### guns -/
 
